@@ -255,6 +255,10 @@ def rule_attack_assumption_templates(ctx):
     for tid, (mode, fn) in sorted(modes.items()):
         sites = [(y, s) for y in prog.with_closures(fn) for s in y.calls() if callee_matches(callee_of(s), r"SatSolver::add_clause$")]
         if not sites:
+            via = [t for t in prog.reachable_from([fn], virtual_dispatch=False).values() if t.kind != "closure" and t is not fn and t in methods and any(callee_matches(callee_of(x), r"SatSolver::add_clause$") for y in prog.with_closures(t) for x in y.calls())]
+            if via:
+                n_enc += 1
+                r.ok("%s|%s" % (enc.rsplit("::", 1)[-1], mode), "NOT decided: the clauses of the %s encoding are added by shared helper methods (%s) with the literals handed in by closures / parameters" % (mode, ", ".join(sorted({t.path.rsplit("::", 1)[-1] for t in via})[:3])), fn.loc())
             continue
         ref = {"ST": REF_ST, "CO": REF_CO}.get(mode)
         if ref is None:
